@@ -400,7 +400,8 @@ fn check_message(st: &mut St, us: &[U], idx: &[usize]) {
         let executed: Vec<usize> = idx.iter().enumerate().filter(|(k, _)| *k <= stop).map(|(_, &i)| i).collect();
         let want: Vec<&Val> = executed.iter().filter_map(|&i| us[i].resp.as_ref()).collect();
         let faults = executed.iter().filter(|&&i| us[i].fault).count();
-        if ch.len() != want.len() || nerr != faults || !tail.is_empty() {
+        // (how many errors are reported is C06's subject; here only: none without a faulty unit)
+        if ch.len() != want.len() || (faults == 0 && nerr != 0) || !tail.is_empty() {
             continue;
         }
         let mut all = true;
